@@ -260,7 +260,7 @@ def main():
     for lo in range(0, n_all, step):
         hi = min(n_all, lo + step)
         conds.append(xh.Cond(H, "converge", timeout=T, env=dict(env0, XH_N="%d-%d" % (lo, hi)),
-                             cc={"ranges": [[lo, hi]], "max": 300 if tier == "quick" else 800},
+                             cc={"ranges": [[lo, hi]], "max": 300 if tier == "quick" else 800, "replays": 1},
                              meta={"variant": "n[%d:%d]" % (lo, hi), "family": "converge",
                                    "no_replayer_selftest": lo not in (0, (n_atomic // step) * step),   # a real replay costs ~1 min
                                    "bound": "crash schedules %d..%d (%s)" % (lo, hi - 1, "atomic writes" if hi <= n_atomic else
